@@ -136,3 +136,61 @@ package file
 //@           result.0.Concurrency == deref(validatedConfigFile.Limits.Concurrency) && result.0.MaxIterations == deref(validatedConfigFile.Limits.MaxIterations) &&
 //@           result.0.maxFailures == deref(validatedConfigFile.Limits.MaxFailures) && result.0.maxFailuresRate == deref(validatedConfigFile.Limits.MaxFailuresRate) &&
 //@           result.0.IgnoreDropped == deref(validatedConfigFile.Limits.IgnoreDropped)
+//@
+//@ // ---- C15 (run time): stages run strictly one after another in plan order; a stage's parameters are exported before
+//@ // its trigger goroutine starts and removed only after that goroutine has finished, on every way out of runStage.
+//@ fnspec workTriggerer(ctx context.Context, output *ui.Output, workers *workers.PoolManager, options options.RunOptions)
+//@   modifies all
+//@
+//@ fnspec cancelFn()
+//@   modifies nothing
+//@
+//@ func setEnvs
+//@   props C15
+//@   requires output != nil
+//@   modifies env, envset
+//@   loop 0 invariant forall k string :: visited(k) ==> indom(envs, k)
+//@   loop 0 invariant forall k string :: visited(k) ==> (setenvOK(k, envs[k]) ==> (envset[k] && env[k] == envs[k]))
+//@   loop 0 invariant forall k string :: !visited(k) ==> (envset[k] == old(envset[k]) && env[k] == old(env[k]))
+//@   ensures [exported] forall k string :: indom(envs, k) && setenvOK(k, envs[k]) ==> (envset[k] && env[k] == envs[k])
+//@   ensures [only-its-keys] forall k string :: !indom(envs, k) ==> (envset[k] == old(envset[k]) && env[k] == old(env[k]))
+//@
+//@ func unsetEnvs
+//@   props C15
+//@   requires output != nil
+//@   modifies envset
+//@   loop 0 invariant forall k string :: visited(k) ==> indom(envs, k)
+//@   loop 0 invariant forall k string :: visited(k) ==> !envset[k]
+//@   loop 0 invariant forall k string :: !visited(k) ==> envset[k] == old(envset[k])
+//@   ensures [removed] forall k string :: indom(envs, k) ==> !envset[k]
+//@   ensures [only-its-keys] forall k string :: !indom(envs, k) ==> envset[k] == old(envset[k])
+//@
+//@ func runStage$1
+//@   props C15 C14
+//@   requires stageValueOK(stage) && wfManager(workers) && options.Concurrency >= 1 && stageDone != nil && !closed(stageDone)
+//@   dyncall doWork : workTriggerer
+//@   ensures [done] closed(stageDone)
+//@   onpanic [done-on-panic] closed(stageDone)
+//@
+//@ func runStage
+//@   props C15 C14
+//@   requires stageValueOK(stage) && wfManager(workers) && options.Concurrency >= 1 && output != nil
+//@   dyncall stageCancel : cancelFn
+//@   assert before call file.runStage$1 : [exported-before-trigger] forall k string :: indom(stage.Params, k) && setenvOK(k, stage.Params[k]) ==> (envset[k] && env[k] == stage.Params[k])
+//@   assert before call unsetEnvs : [trigger-finished-first] closed(stageDone)
+//@   ensures [none-remain] forall k string :: indom(stage.Params, k) ==> !envset[k]
+//@   onpanic [none-remain-on-panic] forall k string :: indom(stage.Params, k) ==> !envset[k]
+//@
+//@ ghost var G15ran int
+//@ func newStagesWorker$1
+//@   props C15
+//@   requires output != nil && wfManager(workers) && options.Concurrency >= 1 && (forall j int :: 0 <= j && j < len(stages) ==> stageValueOK(stages[j]))
+//@   ghost at entry : G15ran = 0
+//@   ghost before call runStage : assert [in-order] arg3 == stages[G15ran] ; G15ran = G15ran + 1
+//@   loop 0 invariant -1 <= rangeindex && rangeindex < len(stages) && G15ran == rangeindex + 1
+//@   ensures [prefix] 0 <= G15ran && G15ran <= len(stages)
+//@
+//@ func newStagesWorker
+//@   props C15
+//@   modifies nothing
+//@   ensures result != nil
